@@ -1,5 +1,4 @@
 CONSTANTS Vals = {"a", "b", "c"} Deadlines = {1400, 1450, 1499, 1500, 2400} Nows = {1000, 2000, 3000} MaxOps = 5 Variant = "orphan-bucket"
 SPECIFICATION Spec
-INVARIANTS Refines Sorted InItsSecond HeapIsDom
-PROPERTIES ExpireExact OneEntry
+INVARIANTS Refines
 CHECK_DEADLOCK FALSE
